@@ -5,6 +5,7 @@ From B2Z Require Import Base.NpPrims Gen.GenRegions Bridge.BridgeRegions.
 From B2Z Require Import Base.Prims Base.OffPrims Gen.GenOffsets Bridge.BridgeOffsets.
 From B2Z Require Gen.GenBins.
 From B2Z Require Import Base.RegionStr Gen.GenRefine Bridge.BridgeRefine.
+From B2Z Require Gen.GenIndexedVcf.
 Import ListNotations.
 Open Scope Z_scope.
 
@@ -210,3 +211,24 @@ Proof.
   - intros r Hr. rewrite (translated_variants_lemma hts file Hh r). exact (B r Hr).
 Qed.
 Print Assumptions translated_partition_pipeline_correct.
+
+(* the decisions of IndexedVcf.__init__ and contig_record_counts (recognised in the source text on every run and emitted as the
+   decision functions of Gen/GenIndexedVcf.v, translator/ivcf2coq.py): a .tbi beside the file is preferred to a .csi; a tabix
+   index means text VCF; a CSI index means BCF exactly when its aux block is empty; the sequence names come from the index
+   (tabix: the name block, CSI: the aux block) and from the header only for BCF; zero counts are dropped for BCF only *)
+Module IV := GenIndexedVcf.
+Theorem translated_index_decisions :
+  (forall c, IV.gen_pick_index true c = Some IV.KTabix) /\ IV.gen_pick_index false true = Some IV.KCsi /\ IV.gen_pick_index false false = None /\
+  (forall a, IV.gen_file_kind IV.KTabix a = IV.FVcf) /\ (forall a, IV.gen_file_kind IV.KCsi a = IV.FBcf <-> a = false) /\
+  (forall a, IV.gen_names_from IV.KTabix a = IV.NIndex) /\ (forall a, IV.gen_names_from IV.KCsi a = IV.NHeader <-> a = false) /\
+  (forall counts, IV.gen_contig_record_counts IV.FVcf counts = counts) /\
+  (forall counts kv, In kv (IV.gen_contig_record_counts IV.FBcf counts) <-> In kv counts /\ 0 < snd kv).
+Proof.
+  split; [intros c; reflexivity|]. split; [reflexivity|]. split; [reflexivity|]. split; [intros a; reflexivity|].
+  split; [intros a; destruct a; cbn; split; intros E; (reflexivity || discriminate)|].
+  split; [intros a; reflexivity|].
+  split; [intros a; destruct a; cbn; split; intros E; (reflexivity || discriminate)|].
+  split; [intros counts; reflexivity|].
+  intros counts kv. cbn [IV.gen_contig_record_counts]. rewrite filter_In, Z.ltb_lt. reflexivity.
+Qed.
+Print Assumptions translated_index_decisions.
